@@ -29,8 +29,9 @@ Open Scope Z_scope.
 
 Fixpoint find_row (x : Z) (tbl : list row) : option row :=
   match tbl with [] => None | r :: t => if rid r =? x then Some r else find_row x t end.
-Fixpoint find_pod (pv : Z) (ps : list pod) : option pod :=
-  match ps with [] => None | p :: t => if pid p =? pv then Some p else find_pod pv t end.
+Definition pkey_eqb (a b : pkeyT) : bool := (fst a =? fst b) && (snd a =? snd b).
+Fixpoint find_pod (pv : pkeyT) (ps : list pod) : option pod :=
+  match ps with [] => None | p :: t => if pkey_eqb (pkey p) pv then Some p else find_pod pv t end.
 
 Definition src_cls (prod : bool) : Z := if prod then cProdHigh else cHigh.
 Definition targets (prod : bool) (tbl : list row) : list row :=
@@ -187,10 +188,11 @@ Definition prop_code (c : cfg) (ns : list nstat) (rounds : list (list nround)) (
 Definition strict_code (c : cfg) (ns : list nstat) (rounds : list (list nround)) (obs : list (list ev)) : Z :=
   check_strict c (tables c ns rounds) obs [].
 
-(* well-formed input: pod names are unique on a node, reported usage is not negative *)
-Fixpoint nodupb (l : list Z) : bool :=
-  match l with [] => true | x :: t => negb (existsb (Z.eqb x) t) && nodupb t end.
+(* well-formed input: (namespace, name) is unique among the pods of a node, reported usage is
+   not negative *)
+Fixpoint nodupb (l : list pkeyT) : bool :=
+  match l with [] => true | x :: t => negb (existsb (pkey_eqb x) t) && nodupb t end.
 Definition wf_nround (r : nround) : bool :=
-  nodupb (map pid (rpods r)) && forallb (fun p => (0 <=? pcpu p) && (0 <=? pmem p)) (rpods r).
+  nodupb (map pkey (rpods r)) && forallb (fun p => (0 <=? pcpu p) && (0 <=? pmem p)) (rpods r).
 Definition wf_rounds (rounds : list (list nround)) : bool :=
   forallb (forallb wf_nround) rounds.
